@@ -112,12 +112,12 @@ const (
 func seamUniverse(thorough bool) []c13.Tup {
 	u := c13.Universe(false)
 	u = append(u,
-		c13.Tup{Obj: "doc:1", Rel: "r1", User: "group:1#admin"},                                   // second userset restriction of the SAME type, other relation
-		c13.Tup{Obj: "doc:1", Rel: "r1", User: "group:*"},                                         // typed wildcard of the userset's type
-		c13.Tup{Obj: "doc:2", Rel: "r1", User: "user:a", Cond: cA},                                // conditioned, no context
-		c13.Tup{Obj: "doc:10", Rel: "r1", User: "user:a"},                                         // third object: "doc:10" < "doc:2" as strings
-		c13.Tup{Obj: "doc:1", Rel: "r1", User: "user:a", Cond: cA, Ctx: map[string]any{"x": 1.0}}, // shadows universe[0] (unconditioned)
-		c13.Tup{Obj: "doc:1", Rel: "r1", User: "group:1#member", Cond: cB},                        // shadows universe[2]
+		c13.Tup{Obj: "doc:1", Rel: "r1", User: "group:1#admin"},                                    // second userset restriction of the SAME type, other relation
+		c13.Tup{Obj: "doc:1", Rel: "r1", User: "group:*"},                                          // typed wildcard of the userset's type
+		c13.Tup{Obj: "doc:2", Rel: "r1", User: "user:a", Cond: cA},                                 // conditioned, no context
+		c13.Tup{Obj: "doc:10", Rel: "r1", User: "user:a"},                                          // third object: "doc:10" < "doc:2" as strings
+		c13.Tup{Obj: "doc:1", Rel: "r1", User: "user:a", Cond: cA, Ctx: map[string]any{"x": 1.0}},  // shadows universe[0] (unconditioned)
+		c13.Tup{Obj: "doc:1", Rel: "r1", User: "group:1#member", Cond: cB},                         // shadows universe[2]
 		c13.Tup{Obj: "doc:1", Rel: "r1", User: "user:*", Cond: cA, Ctx: map[string]any{"x": 20.0}}, // shadows universe[1]: same condition, other context
 	)
 	if thorough {
@@ -291,15 +291,15 @@ func keyOfCanon(s string) string {
 
 // SeamCase is a replayable case of part 3.
 type SeamCase struct {
-	Seam       string     `json:"seam"` // "v1"
-	Stored     []c13.Tup  `json:"stored"`
-	Contextual []c13.Tup  `json:"contextual"`
-	Shadow     bool       `json:"contextual_shadows_stored,omitempty"`
-	Call       c13.Call   `json:"call"`
-	Shape      string     `json:"call_shape"`
-	CallSites  string     `json:"production_call_sites"`
-	Combined   []string   `json:"combined_reader_result"`
-	Reference  []string   `json:"all_stored_result"`
+	Seam       string      `json:"seam"` // "v1"
+	Stored     []c13.Tup   `json:"stored"`
+	Contextual []c13.Tup   `json:"contextual"`
+	Shadow     bool        `json:"contextual_shadows_stored,omitempty"`
+	Call       c13.Call    `json:"call"`
+	Shape      string      `json:"call_shape"`
+	CallSites  string      `json:"production_call_sites"`
+	Combined   []string    `json:"combined_reader_result"`
+	Reference  []string    `json:"all_stored_result"`
 	Deviations [][2]string `json:"deviations,omitempty"`
 }
 
